@@ -10,13 +10,13 @@ RULE = ('start points lat -90..90 (poles, equator), azimuths 0..360 incl. cardin
         'log-uniform 1 mm..2e7 m, uniform, 0 and 2e7 exactly; equatorial, meridional, polar-start and pole-crossing families; '
         'GRS80/WGS84/ANS/Intl24/random ellipsoids (1/f 280..320); float and five angle classes.  vincdir judged against '
         'geod_exact.direct: end point within 1 mm (chord), reverse azimuth within 1e-8 deg when the end point is > 1 deg from a '
-        'pole; angle-class calls compared with the float call.  distinct = ellipsoid x family x |lat| band x azimuth quadrant x '
+        'pole; angle-class calls compared with the float call.  4 % of the cases are preceded by one or two calls the property does not speak about (nearly antipodal or antipodal pairs, latitudes beyond the poles, NaN, a string; distances beyond half the circumference): not judged, exceptions swallowed, but the judged call after them must be as right as ever.  distinct = ellipsoid x family x |lat| band x azimuth quadrant x '
         'distance decade x argument type')
 ASSUMPTIONS = ['geod_exact (vmon/oracles/geod.py), re-validated each shard against Karney GeodTest line 1, the GDA technical '
                'manual line, an ODE integration of the geodesic equations and mpmath']
 N = {'quick': 1500, 'thorough': 25000}
 SHARDS = {'quick': 16, 'thorough': 32}
-REQUIRED_COUNTERS = ['alias_sequences', 'reverse_azimuth_judged', 'angle_class_args']
+REQUIRED_COUNTERS = ['unjudged_calls_before_a_judged_one', 'alias_sequences', 'reverse_azimuth_judged', 'angle_class_args']
 
 
 def plan(tier, seed):
@@ -33,6 +33,8 @@ def run_shard(spec, ctx):
     try:
         for i in range(spec['n']):
             case = geowork.gen_direct_case(rnd)
+            if rnd.random() < 0.04:
+                case['before'] = geowork.gen_unjudged_calls(rnd, rnd.choice(['vincdir', 'vincdir', 'vincinv', 'vincdir']))
             if i < 2:
                 ctx.sample(case)
             geowork.judge_direct(ns, ctx, case)
